@@ -84,6 +84,10 @@ CLAIMED = {
             "The scalar coercion table (built-in names, JSON predicates consulted per name, bounds) and the structural shape of null/list/input-object/variable-map handling, extracted from the type-checked match arms and if-chains.",
             "Clause-level: numeric edge values and serde_json_bytes' predicates are not decided.",
             "decision-table extraction over HIR match arms and if-chains", False),
+    "C15": ("other",
+            "For each invariant in the statement, `invariant broken => a diagnostic is pushed` on the validator's own branch structure (region decision tables over loop bodies: lookup absent, wrong kind, not output/input type, missing interface field, invalid implementation type/arguments, non-null input cycle, reserved name, no query root, reused root); the kind predicates' tables over the six ExtendedType variants; every element reaches its validator on every path (call chain from validate_schema); FindRecursiveInputValue follows exactly non-null named references; plus the built-in scalar bookkeeping rules shared with C16.",
+            "Decides the one-directional implication on branch structure and the extracted tables; helper predicates such as Schema::is_subtype and the iterator adaptors feeding the loops are taken as given. Not a proof that Valid<Schema> implies the invariants.",
+            "region decision tables (MIR path enumeration per loop body), variant tables, loop-relative must-pass-through, may-derive slices", False),
     "C16": ("other",
             "validate_schema changes the schema only through the prune (retain) and restore (insert) of built-in scalar definitions on schema.types: the 8-row decision table of the prune closure, the 3-row table of record_type_ref, coverage of all five containers of type references by a loop that records every element's inner named type on every path, the restore loop after the prune on every path, and no other mutable borrow or non-benign interior mutability of the schema / executable document.",
             "Necessary conditions of idempotence (who writes, what the bookkeeping decides, that all references are recorded); equality of the schema before and after re-validation is not decided.",
